@@ -11,7 +11,7 @@ use specs::prelude::*;
 use specs::Builder;
 
 use crate::comps::{all_drivers, Driver, Out, Path, ALL_PATHS};
-use crate::ledger::{self, Snap, DEFAULT_PAYLOAD, ZST_SNAP};
+use crate::ledger::{self, Snap, ZST_SNAP};
 use crate::model::{Action, Fail, Model, Queue, St};
 use crate::report::Report;
 use crate::rng::{derive, hash_str, Rng, Sig};
@@ -281,149 +281,21 @@ impl W {
 
     /// Compare one access outcome with the model's prediction and update the model.
     fn apply_access(&mut self, k: usize, h: Entity, path: Path, p: u64, out: Out) -> R {
-        let zst = self.env.drivers[k].is_zst();
+        let d = &self.env.drivers[k];
         let alive = self.model.not_dead(h);
-        let m = if alive { self.model.comps[k].get(&h).cloned() } else { None };
-        let prop: &'static str = if alive { "C04" } else { "C03" };
-        let name = self.env.drivers[k].name();
-        let bad = |exp: String| -> R {
-            Err((
-                prop,
-                format!(
-                    "{:?} on {} with {} handle {:?}: expected {}, got {:?}",
-                    path,
-                    name,
-                    if alive { "a live" } else { "a dead" },
-                    h,
-                    exp,
-                    out
-                ),
-            ))
-        };
-        let empty = self.model.comps[k].is_empty();
-        match path {
-            Path::Get | Path::ReadGet | Path::LendGetShared | Path::RestrictGetOther | Path::RestrictReadGetOther => {
-                if matches!(path, Path::RestrictGetOther | Path::RestrictReadGetOther) && empty {
-                    if out != Out::NotReached {
-                        return bad("NotReached (storage empty)".into());
-                    }
-                    return Ok(());
-                }
-                let exp = match m {
-                    Some(s) => Out::Found(s),
-                    None => Out::Absent,
-                };
-                if out != exp {
-                    return bad(format!("{:?}", exp));
-                }
+        let m = self.model.comps[k].get(&h).cloned();
+        let v = crate::access::judge(d.name(), d.is_zst(), d.tracked(), alive, self.model.comps[k].is_empty(), m, h, path, p, out)?;
+        match v.upd {
+            crate::access::Upd::Keep => {}
+            crate::access::Upd::Set(s) => {
+                self.model.comps[k].insert(h, s);
             }
-            Path::GetMut | Path::LendGetMut | Path::RestrictGetOtherMut => {
-                if path == Path::RestrictGetOtherMut && empty {
-                    if out != Out::NotReached {
-                        return bad("NotReached (storage empty)".into());
-                    }
-                    return Ok(());
-                }
-                let exp = match m {
-                    Some(s) => Out::Found(if zst { ZST_SNAP } else { Snap { id: s.id, payload: p } }),
-                    None => Out::Absent,
-                };
-                if out != exp {
-                    return bad(format!("{:?}", exp));
-                }
-                if let (Some(_), Out::Found(s)) = (m, out) {
-                    self.model.comps[k].insert(h, s);
-                }
+            crate::access::Upd::Remove => {
+                self.model.comps[k].remove(&h);
             }
-            Path::Contains | Path::ReadContains => {
-                if out != Out::Bool(m.is_some()) {
-                    return bad(format!("Bool({})", m.is_some()));
-                }
-            }
-            Path::Insert => match out {
-                Out::InsOk(old, new) if alive => {
-                    if old != m {
-                        return bad(format!("InsOk({:?}, _)", m));
-                    }
-                    if old.is_some() {
-                        self.exits[0] += 1;
-                    }
-                    self.model.comps[k].insert(h, new);
-                }
-                Out::InsErr(new) if !alive => {
-                    if new != ZST_SNAP && !ledger::is_dropped(new.id) {
-                        return Err(("C08", format!("value {} offered to a refused insert was not destroyed", new.id)));
-                    }
-                }
-                _ => return bad(if alive { format!("InsOk({:?}, _)", m) } else { "InsErr".into() }),
-            },
-            Path::Remove => {
-                let exp = match m {
-                    Some(s) => Out::Found(s),
-                    None => Out::Absent,
-                };
-                if out != exp {
-                    return bad(format!("{:?}", exp));
-                }
-                if m.is_some() {
-                    self.model.comps[k].remove(&h);
-                    self.exits[0] += 1;
-                }
-            }
-            Path::Entry => {
-                let exp = if !alive {
-                    Out::EntryErr
-                } else {
-                    match m {
-                        Some(s) => Out::EntryOccupied(s),
-                        None => Out::EntryVacant,
-                    }
-                };
-                if out != exp {
-                    return bad(format!("{:?}", exp));
-                }
-            }
-            Path::EntryOrInsert => {
-                if !alive {
-                    if out != Out::EntryErr {
-                        return bad("EntryErr".into());
-                    }
-                } else if let Some(s) = m {
-                    if out != Out::Found(s) {
-                        return bad(format!("Found({:?})", s));
-                    }
-                } else {
-                    match out {
-                        Out::Found(s) if zst || (s.payload == p && ledger::live_in_world(s.id)) => {
-                            self.model.comps[k].insert(h, s);
-                        }
-                        _ => return bad(format!("Found(new value with payload {})", p)),
-                    }
-                }
-            }
-            Path::GetMutOrDefault => {
-                if !alive {
-                    if out != Out::Absent {
-                        return bad("Absent".into());
-                    }
-                } else if let Some(s) = m {
-                    if out != Out::Found(s) {
-                        return bad(format!("Found({:?})", s));
-                    }
-                } else {
-                    match out {
-                        Out::Found(s)
-                            if zst
-                                || (s.payload == DEFAULT_PAYLOAD
-                                    && ledger::origin(s.id) == Some(ledger::Origin::Default)
-                                    && ledger::live_in_world(s.id)) =>
-                        {
-                            self.model.comps[k].insert(h, s);
-                        }
-                        _ => return bad("Found(default-constructed value)".into()),
-                    }
-                }
-            }
+        }
+        if v.returned {
+            self.exits[0] += 1;
         }
         Ok(())
     }
